@@ -75,8 +75,9 @@ func (m MountConditions) Compare(other MountConditions) int {
 }
 
 func (m *MountConditions) Merge(other MountConditions) bool {
-	if m.FsType == other.FsType {
-		m.Options = merge(MOUNT, "flags", m.Options, other.Options)
+	// options=(a,b) only matches a mount using both a and b: two rules with
+	// different option sets cannot be expressed as one rule.
+	if m.FsType == other.FsType && compare(m.Options, other.Options) == 0 {
 		return true
 	}
 	return false
